@@ -18,7 +18,7 @@
      negative literals       the parser yields Neg(Const n): the check rewrites EConst (LInt (-n))
                              into ENeg (EConst (LInt n)) before asking this model
    Not mirrored (not in the fragment): FastRecurse / FastSuper / CallBlock fast paths of
-   compile_emit_expr, Slice, Tuple, Map, method and object calls, splats, SetAttr targets, Do,
+   compile_emit_expr, Slice, Tuple, method and object calls, splats, SetAttr targets, Do,
    blocks / extends / include / import, line and span bookkeeping, the LocalId cache slots of
    ApplyFilter / PerformTest. *)
 From MJ Require Import Common.Base Lang.Syntax Lang.Meta Lang.Interp.
@@ -34,6 +34,17 @@ Definition seq_code {X} (ce : X -> nat -> list instr) : list X -> nat -> list in
     match l with
     | [] => []
     | x :: r => let cx := ce x pc in cx ++ go r (pc + length cx)
+    end.
+
+(* the pairs of a map literal: key code, value code, one pair after the other *)
+Definition pairs_code (ce : expr -> nat -> list instr) : list (expr * expr) -> nat -> list instr :=
+  fix go (l : list (expr * expr)) (pc : nat) : list instr :=
+    match l with
+    | [] => []
+    | (k, v) :: r =>
+        let ck := ce k pc in
+        let cv := ce v (pc + length ck) in
+        ck ++ cv ++ go r (pc + length ck + length cv)
     end.
 
 (* emit_compare *)
@@ -81,6 +92,7 @@ Fixpoint compile_expr (e : expr) (base : nat) {struct e} : list instr :=
     | EConst l => [ILoadConst (lit_value l)]                 (* unreachable: as_const answers *)
     | EVar x => [ILookup x]
     | EList items => seq_code compile_expr items base ++ [IBuildList (Some (length items))]
+    | EMap pairs => pairs_code compile_expr pairs base ++ [IBuildMap (length pairs)]
     | ENeg a => compile_expr a base ++ [INeg]
     | ENot a => compile_expr a base ++ [INot]
     | EBin op a b =>
@@ -192,12 +204,15 @@ Definition if_code (cb : list stmt -> nat -> list instr) (els : option (list stm
         end
     end.
 
-(* `with` assignments *)
-Definition binds_code : list (name * expr) -> nat -> list instr :=
-  fix go (l : list (name * expr)) (pc : nat) : list instr :=
+(* `with` assignments: compile_expr(expr); compile_assignment(target) *)
+Definition binds_code : list (target * expr) -> nat -> list instr :=
+  fix go (l : list (target * expr)) (pc : nat) : list instr :=
     match l with
     | [] => []
-    | (x, e) :: r => let ce := compile_expr e pc in ce ++ IStoreLocal x :: go r (pc + length ce + 1)
+    | (t, e) :: r =>
+        let ce := compile_expr e pc in
+        let ca := assign_code t in
+        ce ++ ca ++ go r (pc + length ce + length ca)
     end.
 
 (* compile_macro_expression, the argument part: parameters last to first, a default in front of the
@@ -265,7 +280,7 @@ Fixpoint compile_stmt (s : stmt) (base : nat) (lc : option lctx) {struct s} : li
           pre ++ [IIterate loop_end] ++ ca ++ cbody
             ++ [IJump it; IPushDidNotIterate; IPopLoopFrame; IJumpIfFalse (loop_end + 3 + length ce)] ++ ce
       end
-  | SSet x e => compile_expr e base ++ [IStoreLocal x]
+  | SSet tgt e => compile_expr e base ++ assign_code tgt
   | SSetBlock x body flt =>
       [IBeginCapture] ++ block (enter_scope ClCapture lc) body (base + 1) ++ [IEndCapture]
         ++ match flt with Some f => [IApplyFilter f 1] | None => [] end ++ [IStoreLocal x]
